@@ -1,0 +1,12 @@
+//go:build !verif
+// +build !verif
+
+package uuid
+
+import "time"
+
+// wallClockNano is the time source of the snowflake generator (replaceable under the
+// build tag `verif`, see clock_verif.go).
+func wallClockNano() int64 {
+	return time.Now().UTC().UnixNano()
+}
